@@ -62,7 +62,7 @@ fn replay(case: &Value, l: &mut Local) {
 }
 
 fn check(ctx: &Ctx) -> i32 {
-    let k: u32 = ctx.tier.pick(3, 4);
+    let k: u32 = ctx.tier.pick(3, 5);
     let reqs = requests();
     ctx.bound("list_max_len", k);
     ctx.bound("rule_pool", POOL.len());
